@@ -123,7 +123,8 @@ CLASSIFIED = {
     ("no_window_prefix", "NoWindowPrefixHandler.member_expr"):
         ("20d693dd3104", ("other", "one step: skip the inner links of a member chain")),
     ("no_empty", "NoEmptyHandler.block_stmt"):
-        ("d9f7e8648664", ("other", "one step: an empty block that is the body of a Function / ArrowExpr / Constructor is allowed")),
+        ("943656bab4f2", ("other", "one step: an empty block that is the body of a Function / ArrowExpr / Constructor / GetterProp / SetterProp is allowed "
+                                  "(re-read after 510b68b; StaticBlock is not listed: an empty `static {}` is reported)")),
     ("no_namespace", "NoNamespaceHandler.ts_module_decl.inside_ambient_context"):
         ("9b3559130b49", ("other", "any enclosing `declare` TsModuleDecl (ambient context is inherited through every construct)")),
     ("no_non_null_assertion", "NoNonNullAssertionHandler.ts_non_null_expr"):
